@@ -347,7 +347,7 @@ var rec = ev.New(prop, "concurrent-logging",
 	Require("parallel", "obj-ctx", "alias")
 
 func TestConcurrentLogging(t *testing.T) {
-	ev.Rapid(t, "concurrent-logging", 600, 20000, func(t *rapid.T) {
+	ev.Rapid(t, "concurrent-logging", 600, 80000, func(t *rapid.T) {
 		c := genCase(t)
 		ev.Current(prop, "concurrent-logging", c)
 		var st stats
@@ -408,7 +408,7 @@ func brief(c Case) any {
 // TestStress: many goroutines only creating contexts - the race on the id counter is easiest to hit here.
 func TestStress(t *testing.T) {
 	recS := ev.New(prop, "id-stress", "32 goroutines x 300 WithContext each, released together, repeated; ids observed through one probe line each; non-trivial = every run")
-	rounds := ev.N(3, 40)
+	rounds := ev.N(3, 120)
 	for r := 0; r < rounds; r++ {
 		var c Case
 		for g := 0; g < 32; g++ {
